@@ -148,6 +148,40 @@ def exact_names(P, R, rule='C18.TAB.3'):
     R.floor(rule, 1)
 
 
+def destination_identity(P, R, rule='C18.TAB.6'):
+    """Two entries name the same destination only if they say the same thing: the table that remembers opened
+    destinations (looked up before a new one is opened) compares the text exactly at least beyond the type prefix.  A
+    comparator that only folds case makes "file:Audit.log" and "file:audit.log" one destination: the second file is
+    never opened and its messages are written - twice where both entries match - to the first."""
+    init = P.need_fn('log_init') if P.fn('log_init') else None
+    cands = []
+    for f in P.unit_fns('src/log.c'):
+        for s in f.stores():
+            l = s.ev.get('lhs') or {}
+            if s.ev['k'] == 'store' and l.get('k') == 'mem' and l.get('field') == 'compare' and is_var(l.get('base'), 'log_destinations'):
+                cands.append(s)
+    if not cands:
+        raise AnalysisBroken('the comparator of the destination table is not installed where expected')
+    for s in cands:
+        rhs = final(s.ev.get('rhs'))
+        name = rhs.get('name') if isinstance(rhs, dict) and rhs.get('k') in ('var', 'func') else None
+        cmpf = P.direct_target(s.fn, name) if name else None
+        if cmpf is None:
+            raise AnalysisBroken('the comparator of the destination table is not a named function')
+        fold = exact = 0
+        for t in cmpf.sites():
+            for ex in rules.event_exprs(t.ev):
+                for x in walk(ex):
+                    if isinstance(x, dict) and x.get('k') == 'callref':
+                        if x.get('callee') in ('strcasecmp', 'strncasecmp'):
+                            fold += 1
+                        if x.get('callee') in ('strcmp', 'strncmp', 'memcmp'):
+                            exact += 1
+        R.ob(rule, exact > 0 or fold == 0, s, 'opened destinations are told apart by their exact text (comparator %s: %d exact, %d case-folding comparisons)' % (cmpf.name, exact, fold),
+             key='destination-identity')
+    R.floor(rule, 1)
+
+
 def final(e):
     while isinstance(e, dict) and e.get('k') == 'bin' and e['op'] == '=':
         e = e['r']
@@ -398,6 +432,7 @@ def run(P, R, tier):
     R.floor('C18.TAB.5', 3, 'vector walks in the logging unit')
     range_bounds(P, R)
     exact_names(P, R)
+    destination_identity(P, R)
     wiring(P, R, h)
     record_format(P, R)
     # destinations are string (list) values: a reload reroutes only if the setters notice every change
